@@ -295,8 +295,8 @@ Proof.
 Qed.
 
 (** Non-vacuity: a concrete non-linear timed system over Qc (F(x) = x*x + 1, G(x) = -x,
-    G_inv(eta, x) = x/(1+eta)); three RK3 steps with a filter advance the time by
-    exactly 3/10; and a concrete 3 x 3 modal array on which the pattern hypotheses hold
+    G_inv(eta, x) = x/(1+eta)); two RK3 steps with a filter advance the time by
+    exactly 2/10; and a concrete 3 x 3 modal array on which the pattern hypotheses hold
     while the clipped explicit tendency is not identically zero. *)
 Example C11_hyps_satisfiable :
   let dt := Q2Qc (1 # 10) in
@@ -307,8 +307,8 @@ Example C11_hyps_satisfiable :
   let step := with_filters (step_of (vo := TimedSp FSp) (timed_F 1 Fx) (timed_G G) (timed_Ginv Ginv) t)
                            [rk_filter (timed_filter (fun x => Q2Qc (1 # 2) * x))] in
   consistent t dt /\
-  snd (iter 3 step (Q2Qc 2, Q2Qc 0)) = Q2Qc (3 # 10) /\
-  fst (iter 3 step (Q2Qc 2, Q2Qc 0)) <> 0 /\
+  snd (iter 2 step (Q2Qc 2, Q2Qc 0)) = Q2Qc (1 # 5) /\
+  fst (iter 2 step (Q2Qc 2, Q2Qc 0)) <> 0 /\
   let pre := fun (x : stack) k i l => if mask false 2 3 i l then x k i l * x k i l + 1 else 0 in
   let x0 : stack := fun k i l => if must_vanish false 2 3 i l then 0 else Q2Qc (1 # 2) in
   Supp false 2 3 3 3 x0 /\
@@ -320,10 +320,10 @@ Proof.
   - intros ph pe. rewrite (ls_consistent (Q2Qc (1 # 10)) _ _ _ ph pe), rk3_consistency.
     f_equal; try (change (Q2Qc (1 # 10) * 1 * ph = Q2Qc (1 # 10) * ph)%Qc; ring).
   - apply Qc_is_canon. vm_compute. reflexivity.
-  - intro H. apply (f_equal (fun q : Qc => Qeq_bool q 0)) in H. vm_compute in H. discriminate H.
+  - match goal with |- ?v <> _ => assert (E : Qeq_bool v 0 = false) by (vm_compute; reflexivity); intro H; rewrite H in E; discriminate E end.
   - intros k i l _ _ Hm. rewrite Hm. reflexivity.
   - intros x k i l Hm. rewrite Hm. reflexivity.
-  - intro H. apply (f_equal (fun q : Qc => Qeq_bool q 0)) in H. vm_compute in H. discriminate H.
+  - match goal with |- ?v <> _ => assert (E : Qeq_bool v 0 = false) by (vm_compute; reflexivity); intro H; rewrite H in E; discriminate E end.
   - apply (explicit_into_Supp false 2 3 3 3 (le_n 3)). intros x k i l _ _ Hm. rewrite Hm. reflexivity.
 Qed.
 
@@ -350,7 +350,8 @@ Qed.
     clock started at n0*dt is at (n0 + k)*dt after k steps, for every integer n0 and every k *)
 Theorem C11_fix_time_round_half_even {V : Type} {vo : VSp Qc V} (Fx G : V -> V) (Ginv : Qc -> V -> V)
         (dt : Qc) (fs : list (V -> V)) (n0 : Z) k (u : V * Qc) :
-  nearest (fun x : Qc => rhe (this x)) /  (dt <> 0 -> snd u = dt * fofZ n0 ->
+  nearest (fun x : Qc => rhe (this x)) /\
+  (dt <> 0 -> snd u = dt * fofZ n0 ->
    snd (iter k (with_filters (step_of (vo := TimedSp vo) (timed_F 1 Fx) (timed_G G) (timed_Ginv Ginv)
                                       (ls_step_term dt (qcl rk3_alphas) (qcl rk3_betas) (qcl rk3_gammas)))
                              (map (fun f => rk_filter (timed_filter f)) fs
@@ -358,8 +359,11 @@ Theorem C11_fix_time_round_half_even {V : Type} {vo : VSp Qc V} (Fx G : V -> V) 
    = dt * fofZ (n0 + Z.of_nat k)%Z).
 Proof.
   split; [exact rnd_qc_nearest|]. intros Hdt Hu.
-  apply (fix_time_trajectory QcZMorph _ dt 1 rnd_qc_nearest Hdt); [reflexivity|reflexivity| |exact Hu].
-  rewrite <- rk3_consistency. apply ls_consistent.
+  assert (Hlo : @flt Qc QcOps (1 - ihalf) 1) by (vm_compute; reflexivity).
+  assert (Hhi : @flt Qc QcOps 1 (1 + ihalf)) by (vm_compute; reflexivity).
+  assert (Hc : consistent (ls_step_term dt (qcl rk3_alphas) (qcl rk3_betas) (qcl rk3_gammas)) (dt * 1)).
+  { rewrite <- rk3_consistency. apply ls_consistent. }
+  exact (fix_time_trajectory QcZMorph _ dt 1 rnd_qc_nearest Hdt Hlo Hhi Fx G Ginv _ fs n0 k u Hc Hu).
 Qed.
 
 Print Assumptions C11_term_preserves_subspace.
